@@ -554,7 +554,7 @@ func (db *SpecDB) ParseSpecFile(path, pkgPath string, trusted bool) error {
 		isHeader := false
 		switch word {
 		case "package", "func", "interface", "functype", "pure", "pred", "axiom", "lemma", "ghost", "sort", "constglobal",
-			"requires", "ensures", "assigns", "decreases", "loop", "after", "returns", "inline", "abstracted", "bitprecise", "nooverflow", "panics-if", "trusted", "noalloc", "prune", "maxpaths", "timeout", "noinline", "nosafety":
+			"requires", "ensures", "assigns", "decreases", "loop", "after", "before", "returns", "inline", "abstracted", "bitprecise", "nooverflow", "panics-if", "trusted", "noalloc", "prune", "maxpaths", "timeout", "noinline", "nosafety":
 			isHeader = true
 		}
 		if !isHeader || strings.HasPrefix(word, "requires[") {
@@ -720,6 +720,30 @@ func (db *SpecDB) ParseSpecFile(path, pkgPath string, trusted bool) error {
 			w2, r2 := splitWord(rest)
 			cur.Clauses = append(cur.Clauses, &Clause{Kind: "returns", Text: r2, Callee: w2, Line: ln + 1, File: path})
 			lastClause = nil
+		case "before":
+			// before <callee> [with <closure>] assert[tags] <expr> : proof obligation at every matching call site
+			if cur == nil {
+				return fmt.Errorf("%s:%d: clause outside block", path, ln+1)
+			}
+			rest += " "
+			i := strings.Index(rest, " assert")
+			if i < 0 {
+				return fmt.Errorf("%s:%d: before ... assert <expr>", path, ln+1)
+			}
+			head := strings.Fields(rest[:i])
+			tail := rest[i+7:]
+			var btags []string
+			if strings.HasPrefix(tail, "[") {
+				j := strings.Index(tail, "]")
+				btags = strings.Split(strings.ReplaceAll(tail[1:j], " ", ""), ",")
+				tail = tail[j+1:]
+			}
+			cl := &Clause{Kind: "beforecall", Tags: btags, Text: strings.TrimSpace(tail), Line: ln + 1, File: path, Callee: head[0]}
+			if len(head) >= 3 && head[1] == "with" {
+				cl.With = head[2]
+			}
+			lastClause = cl
+			cur.Clauses = append(cur.Clauses, lastClause)
 		case "after":
 			// after <callee> [with <closure>] assume <expr>
 			if cur == nil {
